@@ -129,6 +129,10 @@ func (g *v07Gen) reply(s int) {
 	if size > 4096 {
 		size = 4096
 	}
+	if rapid.IntRange(0, 24).Draw(g.rt, "oversize") == 0 {
+		// around and above the server's socket read buffer: may be dropped, must never arrive truncated
+		size = rapid.SampledFrom([]int{4096 - hdr, 4096 - hdr + 1, 4095, 4097, 5000, 9000, 65507}).Draw(g.rt, "oversizeReply")
+	}
 	g.add(v07Op{kind: v07OpReply, s: s, dest: g.dest(), size: size})
 }
 
@@ -309,6 +313,7 @@ func v07GenCase(rt *rapid.T) (v07Cfg, []v07Op, []string) {
 	g.cfg.hookMode = rapid.SampledFrom([]int{0, 0, 1, 2}).Draw(rt, "hookMode")
 	g.cfg.sids = rapid.SliceOfNDistinct(rapid.SampledFrom(v07SidPool), g.nSess, g.nSess, rapid.ID[uint32]).Draw(rt, "sessionIDs")
 	g.cfg.randSeed = rapid.Int64().Draw(rt, "randSeed")
+	g.cfg.phase = rapid.SampledFrom([]time.Duration{0, time.Millisecond, 200 * time.Millisecond, 500 * time.Millisecond, 800 * time.Millisecond, 999 * time.Millisecond}).Draw(rt, "startPhase")
 	g.pending = make([]*v07PendingMsg, g.nSess)
 	steps := rapid.IntRange(1, 40).Draw(rt, "steps")
 	for i := 0; i < steps; i++ {
@@ -377,7 +382,7 @@ func v07Uniq(in []string) []string {
 
 func v07Fingerprint(cfg v07Cfg, ops []v07Op) string {
 	var b strings.Builder
-	fmt.Fprintf(&b, "%v/%d/%d|", cfg.idle, cfg.limit, cfg.hookMode)
+	fmt.Fprintf(&b, "%v/%d/%d/%v|", cfg.idle, cfg.limit, cfg.hookMode, cfg.phase)
 	for _, o := range ops {
 		fmt.Fprintf(&b, "%d.%d.%d.%d;", o.kind, o.s, o.fragID, o.dur/time.Millisecond)
 	}
